@@ -6,17 +6,21 @@ Tier == IOEnv.VF_TIER
 Recs == ndJsonDeserialize(IOEnv.VF_RECS)
 Wd == ndJsonDeserialize(IOEnv.VF_WORLDS)
 Sd == ndJsonDeserialize(IOEnv.VF_SESSIONS)
+Pairs == ndJsonDeserialize(IOEnv.VF_PAIRS)      \* (world, session) of every record of the whole run (the records may come in shards)
 N == Len(Recs)
 K == 16
 ASSUME \/ Tier = "replay"
        \/ /\ {Wd[k] : k \in 1..Len(Wd)} = Worlds(Tier) /\ Len(Wd) = Cardinality(Worlds(Tier))
           /\ {Sd[k] : k \in 1..Len(Sd)} = Sessions(Tier) /\ Len(Sd) = Cardinality(Sessions(Tier))
-          /\ {<<Recs[k].w, Recs[k].s>> : k \in 1..N} = {p \in (1..Len(Wd)) \X (1..Len(Sd)) : Wd[p[1]].fam = Sd[p[2]].fam}
+          /\ {<<Pairs[k].w, Pairs[k].s>> : k \in 1..Len(Pairs)} = {p \in (1..Len(Wd)) \X (1..Len(Sd)) : Wd[p[1]].fam = Sd[p[2]].fam}
+          /\ {<<Recs[k].w, Recs[k].s>> : k \in 1..N} \subseteq {<<Pairs[k].w, Pairs[k].s>> : k \in 1..Len(Pairs)}
 VARIABLE blk
 Init == blk = 0
 Next == \/ /\ blk = 0 /\ blk' \in {1 + K * s : s \in 0..((N - 1) \div K)}
         \/ /\ blk > 0 /\ (blk % K) # 0 /\ blk < N /\ blk' = blk + 1
 Shape(r) == Len(r.o) = Len(Sd[r.s].ev) + 1 /\ \A k \in 1..Len(r.o) : Len(r.o[k].pr) = Len(Wd[r.w].msgs)
 PBad(r) == IF Shape(r) THEN PRun(Wd[r.w], Sd[r.s].ev, r.o) ELSE {<<<<"crashed-or-truncated">>, 0>>}
-Judge == blk = 0 \/ LET bad == PBad(Recs[blk]) IN bad = {} \/ ((\A x \in bad : PrintT(<<"VF", "BAD", blk, x[2], x[1]>>)) /\ FALSE)
+SBad(r) == IF Shape(r) THEN SRun(Wd[r.w], Sd[r.s].ev, r.o) ELSE 0
+DriftNote(r) == LET k == SBad(r) IN k = 0 \/ PrintT(<<"VF", "DRIFT", blk, k>>)
+Judge == blk = 0 \/ LET bad == PBad(Recs[blk]) IN DriftNote(Recs[blk]) /\ (bad = {} \/ ((\A x \in bad : PrintT(<<"VF", "BAD", blk, x[2], x[1]>>)) /\ FALSE))
 =============================================================================
